@@ -191,12 +191,16 @@ def assignments_local(rng, m, ss):
 
 def run(ctx):
     rng = ctx.rng
+    import os
+    os.environ.update(dict(_fetch.ENV_CHOICES))     # the environment names the generated sources refer to
     n = ctx.scale(400, 6000, 1200)
     for i in range(n):
         if ctx.time_left() < 30:
             ctx.notes.append("stopped early on time budget")
             break
-        tree, mt, srcs = _fetch.gen(rng, nested=(i % 5 == 4))
+        tree, mt, srcs = _fetch.gen(rng, nested=(i % 5 == 4), variables=(i % 2 == 1))
+        if i % 2 == 1:
+            ctx.count("sources_with_variables")
         paths = [p for p, nd in mgen.param_paths(tree) if nd["k"] == "d"]
         arg = "%s=1" % rng.choice(paths) if paths else "zz=1"
         m = freephil.parse(input_string=mt)
